@@ -588,3 +588,45 @@ Proof.
   rewrite P in Q. cbn [length] in Q. rewrite !map_length, !app_length in Q.
   destruct ks2; [contradiction|]. cbn [length] in Q. lia.
 Qed.
+
+(* ------------------------------------------------------------------ *)
+(* aborted transfers                                                   *)
+
+(* whatever an updater did before it was dropped without Finished, a following
+   complete AXFR gives the sender's zone, and a following IXFR starts from the
+   content that was visible when the first updater was dropped *)
+Theorem abort_then_axfr us1 z0 st1 s ks :
+  u_apply_all us1 (u_start z0) = Ok st1 ->
+  c10_transfers z0 [us1; axfr_upds s ks] =
+  Ok [u_visible st1; Soa s :: rev (map Other ks)].
+Proof.
+  intros H. unfold c10_transfers. cbn [u_transfers]. rewrite H. cbn [bind].
+  rewrite u_axfr. reflexivity.
+Qed.
+
+Theorem abort_then_ixfr us1 z0 st1 snew ds :
+  u_apply_all us1 (u_start z0) = Ok st1 ->
+  c10_transfers z0 [us1; ixfr_upds snew ds] =
+  Ok [u_visible st1;
+      z_update_soa snew (fold_left (fun z d => apply_diff_z d z) ds (u_visible st1))].
+Proof.
+  intros H. unfold c10_transfers. cbn [u_transfers]. rewrite H. cbn [bind].
+  rewrite u_ixfr. reflexivity.
+Qed.
+
+(* an aborted transfer that never reached a batch boundary is invisible *)
+Theorem abort_invisible us1 z0 st1 :
+  u_apply_all us1 (u_start z0) = Ok st1 ->
+  forallb (fun u => negb (is_commit u)) us1 = true ->
+  c10_transfers z0 [us1] = Ok [z0].
+Proof.
+  intros H C. unfold c10_transfers. cbn [u_transfers]. rewrite H. cbn [bind].
+  rewrite (u_apply_all_visible _ _ _ H C). reflexivity.
+Qed.
+
+Example abort_nonvacuous :
+  c10_transfers [Soa 3; Other 5; Other 9]
+    [[UBeginDel 3; UDelete (Other 5); UBeginAdd 4; UAdd (Other 6); UBeginDel 4; UDelete (Other 9)];
+     ixfr_upds 6 [mkDiff 4 [6] 6 [7]]]
+  = Ok [[Other 6; Soa 4; Other 9]; [Soa 6; Other 7; Other 9]].
+Proof. vm_compute. reflexivity. Qed.
